@@ -4,8 +4,9 @@ working tree equals what the model assumes.  A moved or dropped lock breaks a th
 -/
 import Goat.Tie.C13.Expected
 import Goat.Tie.C13.Extracted
+import Goat.Tie.C13.Idiom
 namespace Goat.Tie.C13
-open Goat.Tie.C13
+open Goat.Tie.C13 Goat.DataScope
 
 theorem tie_DataScope_SetValue : Extracted.DataScope_SetValue = Expected.setValue := by decide
 theorem tie_DataScope_Value : Extracted.DataScope_Value = Expected.rootValue := by decide
@@ -30,5 +31,59 @@ theorem tie_expected_bracketed :
     bracketed Expected.rootLockData = true ∧ bracketed Expected.childLockData = true ∧
     Expected.rootLockData.contains .unlock = false ∧ Expected.childLockData.contains .unlock = false := by
   decide
+
+/-! ### The services follow the get-or-create idiom
+
+`Goat.C13.get_or_create_once_services` is about goroutines running the programs `runSkeleton` reads
+from skeletons; the theorems below say that the skeleton of each function of the repository that takes
+a data locker IS one of the idiom's spellings (read of the key under the lock, test of that read, the
+created instance stored under the same key and returned, the lock released exactly once on every path,
+no use of the scope itself), and that there is no other such function. -/
+
+theorem tie_tasks_Unit_FromScope_get_or_create :
+    Extracted.tasks_Unit_FromScope = Expected.getOrCreateDeferred := by decide
+theorem tie_envs_Unit_Envs_get_or_create :
+    Extracted.envs_Unit_Envs = Expected.getOrCreateRetCommit := by decide
+theorem tie_waits_WaitManager_ForScope_get_or_create :
+    Extracted.waits_WaitManager_ForScope = Expected.getOrCreateCommit := by decide
+
+/-- exactly these functions mention `LockData` outside package datascope -/
+theorem tie_idiom_users : Extracted.idiomUsers = Expected.idiomUsers := by decide
+
+/-- exactly these functions write a service key with a plain `SetValue` (the traffic `get_or_create_once`
+excludes by hypothesis) -/
+theorem tie_key_plain_writers : Extracted.keyPlainWriters = Expected.keyPlainWriters := by decide
+
+/-- each admissible spelling denotes the program of `get_or_create_once`, on any scope and key -/
+theorem tie_idiom_shapes_run (s : Nat) (c : Key) :
+    ∀ sk ∈ Expected.idiomShapes, runSkeleton s c sk = some (getOrCreate s c) := by
+  intro sk h
+  simp only [Expected.idiomShapes, List.mem_cons, List.not_mem_nil, or_false] at h
+  rcases h with rfl | rfl | rfl <;> rfl
+
+/-- and so do the skeletons of the three services as extracted (directly, without going through
+`Expected`): the hypothesis of `get_or_create_once_services` for the code in the repository -/
+theorem tie_services_run (s : Nat) (c : Key) :
+    ∀ sk ∈ [Extracted.tasks_Unit_FromScope, Extracted.envs_Unit_Envs, Extracted.waits_WaitManager_ForScope],
+      runSkeleton s c sk = some (getOrCreate s c) := by
+  intro sk h
+  simp only [List.mem_cons, List.not_mem_nil, or_false] at h
+  rcases h with rfl | rfl | rfl <;> rfl
+
+/-- what the interpreter refuses (each is a way to break `get_or_create_once`): a read of the key on the
+scope itself before the lock with no second read under it; no release on a path; a second release; a
+different key stored; an instance returned that is not the one stored -/
+theorem tie_idiom_refused (s : Nat) (c : Key) :
+    runSkeleton s c [.unlockedValue 0 0, .ifNotNil 0, .ret [.assertOf 0, .nil], .fi, .lock, .deferCommit,
+      .create 1, .setValue 0 1, .ret [.var 1, .nil]] = none ∧
+    runSkeleton s c [.lock, .value 0 0, .ifNotNil 0, .ret [.assertOf 0, .nil], .fi, .create 1, .setValue 0 1,
+      .ret [.var 1, .nil]] = none ∧
+    runSkeleton s c [.lock, .deferCommit, .value 0 0, .ifNil 0, .create 1, .setValue 0 1, .else_, .assert 1 0, .fi,
+      .commit, .ret [.var 1, .nil]] = none ∧
+    runSkeleton s c [.lock, .value 0 0, .ifNil 0, .create 1, .setValue 1 1, .else_, .assert 1 0, .fi,
+      .commit, .ret [.var 1, .nil]] = none ∧
+    runSkeleton s c [.lock, .value 0 0, .ifNil 0, .create 1, .setValue 0 1, .else_, .assert 1 0, .fi,
+      .commit, .ret [.var 2, .nil]] = none :=
+  ⟨rfl, rfl, rfl, rfl, rfl⟩
 
 end Goat.Tie.C13
